@@ -116,6 +116,9 @@ def main(argv=None):
         if rc == "timeout":
             timeouts += 1
             total.inconc(f"shard {idx} ({spec.get('kind')}) hit the wall-clock watchdog")
+        elif rc in (-15, -9):
+            # SIGTERM / SIGKILL come from outside (operator, OOM killer, harness): no verdict from this shard
+            total.inconc(f"shard {idx} ({spec.get('kind')}) was killed by signal {-rc} from outside")
         elif rc != 0:
             # the worker died (signal, MemoryError outside a case, interpreter abort): that is an
             # observation about the code under test, not a held verdict
